@@ -73,6 +73,12 @@ def OutSt.pendingOpen : OutSt → Option Sid
   | .init s => some s
   | _ => none
 
+/-- Dropping an `Open` state drops its shutdown sender, which the connection task observes like a fired
+oneshot. -/
+def PState.dropped : PState → List Out
+  | .opn t => [.shutdown t]
+  | _ => []
+
 abbrev Slot := Option PState
 abbrev Res := Slot × List Out
 
@@ -98,7 +104,7 @@ def onConnEstablished (slot : Slot) (openRes : Option Sid) : Res :=
   | none => (some (.closed none), [])
   | some .dialing => onOpenSubstream (some (.closed none)) true true openRes
   | some (.valPending c) => (some (.valPending .opn), if c = .clo then [] else [.bug])
-  | some _ => (some .poisoned, [.bug])
+  | some st => (some .poisoned, st.dropped ++ [.bug])
 
 /-- `on_connection_closed` -/
 def onConnClosed (slot : Slot) : Res :=
@@ -138,7 +144,7 @@ def onOutboundSubstream (slot : Slot) (sid : Sid) (pipe : Pipe) (pendOk : Bool) 
     | .closed (some s) =>
       if s = sid then (some (.closed none), pre ++ [.closePipe pipe])
       else (some .poisoned, pre ++ [.closePipe pipe, .bug])
-    | _ => (some .poisoned, pre ++ [.closePipe pipe, .bug])
+    | st => (some .poisoned, pre ++ st.dropped ++ [.closePipe pipe, .bug])
 
 /-- `on_inbound_substream` -/
 def onInboundSubstream (slot : Slot) (pipe : Pipe) : Res :=
@@ -216,7 +222,7 @@ def onHsNegotiated (slot : Slot) (d : Dir) (hs : Hs) (pipe : Pipe) (auto : Bool)
       | .validating .neg inb dir =>
         let r := hsFinal (.validating (.opn hs pipe) inb dir) task
         (r.1, [.rmOut] ++ r.2)
-      | _ => (some .poisoned, [.rmOut, .bug, .timer])
+      | st => (some .poisoned, [.rmOut] ++ st.dropped ++ [.bug, .timer])
     | .inbound =>
       match st with
       | .validating out .reading dir =>
@@ -227,7 +233,7 @@ def onHsNegotiated (slot : Slot) (d : Dir) (hs : Hs) (pipe : Pipe) (auto : Bool)
       | .validating out .sending dir =>
         let r := hsFinal (.validating out (.opn pipe) dir) task
         (r.1, [.rmIn] ++ r.2)
-      | _ => (some .poisoned, [.rmIn, .bug, .timer])
+      | st => (some .poisoned, [.rmIn] ++ st.dropped ++ [.bug, .timer])
 
 /-- `on_handshake_event`, `HandshakeEvent::NegotiationError`. -/
 def onHsError (slot : Slot) : Res :=
@@ -236,7 +242,7 @@ def onHsError (slot : Slot) : Res :=
   | some (.validating out _ _) =>
     if out ≠ .closed then (some (.closed out.pendingOpen), [.rmOut, .rmIn, .fail .rejected])
     else (some (.closed none), [.rmOut, .rmIn, .timer])
-  | some _ => (some .poisoned, [.rmOut, .rmIn, .bug, .timer])
+  | some st => (some .poisoned, [.rmOut, .rmIn] ++ st.dropped ++ [.bug, .timer])
 
 /-- `on_dial_failure` -/
 def onDialFailure (slot : Slot) : Res :=
